@@ -92,3 +92,19 @@ Example C03_example :
   (exists r, assemble_items ex_its [] [] true = Done r /\ r_labels r = [("a", 0); ("b", 8)]%string) /\
   (exists r, assemble_items ex_its [] [] false = Done r /\ r_labels r = [("a", 0); ("b", 8)]%string).
 Proof. exact (conj ex_nonneg (conj ex_nodup (conj ex_runs_c ex_runs_u))). Qed.
+
+(* ---- tie of expression evaluation to the source (Gen/Guards.v: the return expressions of Offset / Position / Hi / Lo .eval, translated;
+   the position and environment resolve_immediates evaluates with, the second half of an auipc / lui pair at the position of the first) *)
+From BB Require Gen.Guards Proofs.Guards.
+Theorem C03_eval_from_source : Proofs.Guards.eval_from_source_stmt.
+Proof. exact Proofs.Guards.eval_from_source. Qed.
+Print Assumptions C03_eval_from_source.
+Theorem C03_resolve_immediates_from_source : Proofs.Guards.resolve_immediates_from_source_stmt.
+Proof. exact Proofs.Guards.resolve_immediates_from_source. Qed.
+Print Assumptions C03_resolve_immediates_from_source.
+
+(* ---- resolve_labels as the source has it (Gen/Guards.v): a label is bound to the running position (from 0, advanced by item.size()),
+   a second definition is refused at its line *)
+Theorem C03_resolve_labels_from_source : Proofs.Guards.resolve_labels_from_source_stmt.
+Proof. exact Proofs.Guards.resolve_labels_from_source. Qed.
+Print Assumptions C03_resolve_labels_from_source.
